@@ -64,6 +64,10 @@ def maxdiff_of(I: Interp, new, old):
 def same(a, b) -> bool:
     if alpha_norm(a) == alpha_norm(b):
         return True
+    from ..terms import case_equal, vnorm
+    va, vb = alpha_norm(vnorm(a)), alpha_norm(vnorm(b))
+    if va == vb or case_equal(va, vb):
+        return True
     from ..terms import subterms
     unk = sorted({t[1][1:] for x in (a, b) for t in subterms(x) if t[0] == "app" and isinstance(t[1], str) and t[1].startswith("?")})
     if unk:
